@@ -22,7 +22,7 @@ def main(tier):
     ck = report.Check("C04", tier, level="proof", technique="symbolic interpretation of the direct-solver matrix assembly into exact CSR tables, compared with the residual operator table by identity testing; structural rules for the solve path")
     ck.rule("R-C04-1", "assembled matrix table == residual operator table (give, take)", floor=8)
     ck.rule("R-C04-2", "CSR slot discipline (one column per slot, no duplicate column, sizes agree)", floor=8)
-    ck.rule("R-C04-3", "factorise what was assembled; solve with that factorisation", floor=2)
+    ck.rule("R-C04-3", "the constructor factorises exactly the matrix it assembled; solveInPlace(x) hands x, whole and unmodified, to that factorisation", floor=8)
     prog = tab_ops.load()
     ck.units += prog.units
     for cls in ("DirectSolverGiveCustomLU", "DirectSolverTakeCustomLU"):
@@ -39,9 +39,10 @@ def main(tier):
                 continue
             key = "%s %s" % (cls, sk)
             site = ir.locstr(prog.fn(cls + "::buildSolverMatrix"))
-            obj = opsdom.build_without_body(prog, S.dom, cls, "DirectSolver", [Cell(S.grid), Cell(S.cache(*flags)), Cell(S.geom), Cell(S.coef), dirbc, threads])
             n_oob = len(S.dom.oob)
-            M = S.it.call_function(prog.fn(cls + "::buildSolverMatrix"), obj, [])
+            # the full constructor: base-class initialisers, buildSolverMatrix(), and the (summarised) factorisation
+            obj = opsdom.operator(prog, S.dom, cls, S.grid, S.cache(*flags), S.geom, S.coef, dirbc, threads)
+            M = obj.f["solver_matrix_"].get()
             T, probs = opsdom.csr_table(M)
             ck.instance("R-C04-2", key)
             cols = M.f["column_indices_"].get()
@@ -73,35 +74,38 @@ def main(tier):
                     key, i, S.rt(i), c, S.rt(c) if c is not None else None, a, b))
             else:
                 ck.ok("R-C04-1", key)
-    # ---- R-C04-3 structural
-    for cls in ("DirectSolverGiveCustomLU", "DirectSolverTakeCustomLU"):
-        ck.instance("R-C04-3", cls)
-        ctor = [f for f in prog.fns("%s::%s" % (cls, cls)) if len(f["params"]) == 6]
-        solve = prog.fn(cls + "::solveInPlace")
-        probs = []
-        if len(ctor) != 1:
-            raise ir.AnalysisBroken("constructor of %s" % cls)
-        seq = []
-        for s in ctor[0]["body"]["s"]:
-            txt = ir.show(s.get("e", s))
-            seq.append(txt)
-        joined = " ; ".join(seq)
-        if "solver_matrix_" not in joined or "buildSolverMatrix()" not in joined:
-            probs.append("constructor does not assemble solver_matrix_ with buildSolverMatrix()")
-        fact = [t for t in seq if "lu_solver_" in t]
-        if not fact or "solver_matrix_" not in fact[-1]:
-            probs.append("lu_solver_ is not constructed from solver_matrix_")
-        elif seq.index(fact[-1]) < max(i for i, t in enumerate(seq) if "buildSolverMatrix()" in t):
-            probs.append("lu_solver_ is constructed before the matrix is assembled")
-        calls = [c for c in structq.calls_in(solve) if c.get("callee", "").endswith("::solveInPlace")]
-        p0 = solve["params"][0]
-        ok = any(c.get("this") is not None and ir.show(c["this"]) == "lu_solver_" and c["args"] and c["args"][0].get("k") == "Ref" and c["args"][0]["id"] == p0["id"] for c in calls)
-        if not ok:
-            probs.append("solveInPlace does not pass the caller's vector to lu_solver_.solveInPlace")
-        if probs:
-            ck.violation("R-C04-3", "%s:solve-path" % cls, ir.locstr(solve), "; ".join(probs))
-        else:
-            ck.ok("R-C04-3", cls)
+            # ---- R-C04-3 (semantic): what is factorised is what was assembled; the solve goes through that factorisation
+            ck.instance("R-C04-3", key)
+            p3 = []
+            lu = obj.f["lu_solver_"].get() if "lu_solver_" in obj.f else None
+            ft = lu.f["__factorised_table"].get() if lu is not None and hasattr(lu, "f") and "__factorised_table" in lu.f else None
+            if ft is None:
+                p3.append("the constructor does not build lu_solver_ from a matrix")
+            else:
+                dd = [(r, c) for r in set(T) | set(ft[1]) for c in set(T.get(r, {})) | set(ft[1].get(r, {}))
+                      if not dag.equal(dag.lift(T.get(r, {}).get(c, dag.ZERO)), dag.lift(ft[1].get(r, {}).get(c, dag.ZERO)))]
+                if dd:
+                    p3.append("the LU was factorised (at %s) from a matrix that differs from solver_matrix_ as assembled, first at entry %s: factorisation before the assembly, or of another matrix" % (ft[3], dd[0]))
+            from gmg.symdom import SArr
+            from gmg.dag import Lin
+            xv = SArr("x", S.N, gen=lambda j: Lin.var(("b", j)))
+            n_calls = len(S.dom.solver_calls)
+            S.it.call_function(prog.fn(cls + "::solveInPlace"), obj, [Cell(xv)])
+            calls = S.dom.solver_calls[n_calls:]
+            if len(calls) != 1 or calls[0]["solver"] is not lu or calls[0]["arr"] is not xv or calls[0]["off"] != 0 or calls[0]["n"] != S.N:
+                p3.append("solveInPlace(x) does not hand exactly x[0..%d) to the factorisation built by the constructor (%d solver calls%s)" % (
+                    S.N, len(calls), "" if not calls else ", range [%d,%d) of %s" % (calls[0]["off"], calls[0]["off"] + calls[0]["n"], calls[0]["arr"].name)))
+            else:
+                rows = calls[0]["rows"]
+                for j in range(S.N):
+                    v = rows[j]
+                    if not (isinstance(v, Lin) and set(v.t) == {("b", j)} and dag.equal(v.t[("b", j)], dag.ONE) and dag.is_zero(v.c)):
+                        p3.append("the right-hand side reaches the solver modified at entry %d" % j)
+                        break
+            if p3:
+                ck.violation("R-C04-3", "%s:solve-path" % cls, ir.locstr(prog.fn(cls + "::solveInPlace")), "%s: %s" % (key, "; ".join(p3)))
+            else:
+                ck.ok("R-C04-3", key)
     return ck.finish(
         "buildSolverMatrix (both strategies, including the stencil offset maps, getStencilSize and the SparseMatrixCSR constructor it "
         "uses) is interpreted from source on representative grids down to the smallest admissible ones; the resulting CSR object is "
